@@ -57,7 +57,7 @@ def gen_history(rng):
 def cases(tier, seed, phase):
     for j in range(24 if tier == 'quick' else 400):
         rng = rng_for(seed, 'c04s', j)
-        yield {'kind': 'scanwrite', 'nbefore': rng.choice([0, 1, 3]), 'nwrites': rng.choice([1, 2, 3]), 'scan_at': rng.choice(['env', 'env', 'meta', 'both']),
+        yield {'kind': 'scanwrite', 'nbefore': rng.choice([0, 1, 3]), 'nwrites': rng.choice([1, 2, 3]), 'scan_at': rng.choice(['env', 'meta', 'both', 'midfile', 'midfile']),
                'then_crash': rng.random() < 0.5}
     for j in range(24 if tier == 'quick' else 400):
         rng = rng_for(seed, 'c04f', j)
@@ -228,6 +228,19 @@ def run_scanwrite(case, model):
                 gevent.spawn(scan).join()
             return real_meta(id, meta)
         st.ops.write_env, st.ops.write_meta = write_env, write_meta
+        import slimta.diskstorage as ds
+        real_wp = ds.AioFile._write_piece
+        pieces = {'n': 0}
+
+        def wp(self, fd, data, data_len, offset):
+            r = real_wp(self, fd, data, data_len, offset)
+            pieces['n'] += 1
+            if case['scan_at'] == 'midfile' and pieces['n'] % 2 == 1:
+                gevent.spawn(scan).join()       # the scan runs while a scratch file of this write is half written
+            return r
+        ds.AioFile._write_piece = wp
+        real_chunk = ds.AioFile.chunk_size
+        ds.AioFile.chunk_size = 64
         for k in range(case['nbefore'], case['nbefore'] + case['nwrites']):
             try:
                 acked[st.write(make_env(k, 2), 1000.0 + k)] = k
@@ -253,6 +266,10 @@ def run_scanwrite(case, model):
         if any(isinstance(x, str) for x in scans):
             hits.append(hit('c04.scan-raises', 'load() raised while a write was in progress', observed=[x for x in scans if isinstance(x, str)][:2]))
     finally:
+        try:
+            ds.AioFile._write_piece, ds.AioFile.chunk_size = real_wp, real_chunk
+        except NameError:
+            pass
         shutil.rmtree(root, ignore_errors=True)
     return CaseResult(None, hits, ('scanwrite', case['nbefore'], case['nwrites'], case['scan_at']), ['scan-during-write'])
 
